@@ -726,6 +726,7 @@ class TorControlProtocol(LineOnlyReceiver):
 
         outstanding = [self.command] + self.commands if self.command else self.commands
         self.command = None
+        self.commands = []
         self.defer = None
         for d, cmd, cmd_arg in outstanding:
             if not d.called:
@@ -769,6 +770,8 @@ class TorControlProtocol(LineOnlyReceiver):
             (d, cmd, cmd_arg) = self.command
 
             if self._when_disconnected.already_fired(d):
+                # nothing is in flight: later commands must fail too
+                self.command = None
                 return
 
             self.defer = d
